@@ -31,12 +31,20 @@ def trigTol (value : Bool) (op : Op) (a b : Atom) : Bool :=
 /-- exact rational value of an xs:integer / xs:decimal atom -/
 def exactVal : Atom → Option Rat | .int v => some v | .dec q => some q | _ => none
 
+/-- rank used for promotion: in a general comparison an untypedAtomic operand facing a number is
+cast to xs:double -/
+def promRank (value : Bool) (a : Atom) : Option Nat :=
+  match a with
+  | .ua _ => if value then none else some 2
+  | _ => CmpSpec.numRank a
+
 /-- F07-promotion: the pair mixes numeric types and the promotion the specification asks for
 (`castNum` to the higher of decimal < float < double) is not the one the code performs: general
-comparison compares int with float exactly and Decimal with float as binary64; value comparison
-uses binary64 (`get_double`) also when the other operand is xs:float. -/
+comparison compares int with float (and with an untypedAtomic cast to double) exactly and Decimal
+with float as binary64; value comparison uses binary64 (`get_double`) also when the other operand
+is xs:float. -/
 def trigPromotion (value : Bool) (a b : Atom) : Bool :=
-  match CmpSpec.numRank a, CmpSpec.numRank b with
+  match promRank value a, promRank value b with
   | some i, some j =>
     if i = j then false else
     let k := if i < j then j else i
@@ -44,7 +52,7 @@ def trigPromotion (value : Bool) (a b : Atom) : Bool :=
     match exactVal lo with
     | some q =>
       if value then decide (CmpSpec.castNum k lo ≠ toD64 q)
-      else decide (CmpSpec.castNum k lo ≠ .fin q)
+      else decide (CmpSpec.castNum k lo ≠ .fin q) || decide (toD64 q ≠ .fin q)
     | none => false
   | _, _ => false
 
